@@ -5,7 +5,9 @@ From LV Require Import Base.Bytes Base.Sx Model.Obj Model.Writer Model.Save Proo
   Spec.StrictReader Proofs.StrictReaderProofs Proofs.SaveStrictProofs
   Proofs.ObjectRtProofs Spec.SaveSpec Proofs.StrictObjectProofs Proofs.StrictFileProofs Proofs.StrictTilingProofs
   Proofs.StrictLoadProofs Proofs.StrictLoadStreamProofs Proofs.StrictSaveProofs
-  Model.Incremental Proofs.StrictRevisionProofs Proofs.StrictIncrementalProofs Proofs.StrictIncSaveProofs.
+  Model.Incremental Proofs.StrictRevisionProofs Proofs.StrictIncrementalProofs Proofs.StrictIncSaveProofs
+  Proofs.StrictHistoryProofs Proofs.StrictHistorySaveProofs Proofs.StrictHistoryExample.
+From LV Require Model.Loader Proofs.IncrementalProofs Proofs.C07BytesTable Proofs.C07BytesHistory Proofs.C07BytesExample.
 
 Local Open Scope N_scope.
 
@@ -363,6 +365,134 @@ Theorem C03_incremental_example :
   s_revisions (sdoc_inc XTable (raise_max_id ex_doc3) ex_update) = 2.
 Proof. exact strict_inc_example. Qed.
 
+(* ------------------------------------------------------------------------------------------ *)
+(* Part 5: A HISTORY -- a saved file followed by ANY NUMBER of incremental saves.                *)
+(* ------------------------------------------------------------------------------------------ *)
+
+(* (5.1) the layout level.  [hist] (Proofs/StrictHistoryProofs.v): HBase x d = the file save writes for d,
+   HUpd h x nd = the file h followed by LF, the repeated "%PDF-" and binary-mark lines, the objects of nd, ONE
+   cross-reference section in format x and a startxref marker (formats may differ from revision to revision).
+   [h_dom]: the first document is in the domain of (3.2); every later document is in the writer's domain
+   ([rev_dom]: ascending distinct numbers <= its max_id, generations <= 65535, well-formed objects, stream
+   Length = |content|, no skipped types, well-formed trailer), its version has no EOL byte and its binary mark
+   only bytes >= 128, its trailer has Prev = the startxref of the file before it, and its max_id is not below
+   any object number listed by an older section.  Then the strict reader accepts the whole file and returns
+   [sdoc_hist h]: it follows Prev through all k sections (induction over read_chain), checks every section
+   against its own Size and the newest Size, locates every object of every revision, counts k fillers, and the
+   spans sort to [tiling]: revision after revision, each one filler / objects / section / marker (+ the
+   repetition of a cross-reference stream's own span), which tile [0, |file|); per object number the newest
+   revision that lists it decides ([omerge_list]). *)
+Theorem C03_strict_chain :
+  forall h, h_dom h -> h_len h < u32_mod -> strict_load (h_bytes h) = SOk (sdoc_hist h).
+Proof. exact strict_load_hist. Qed.
+
+(* (5.2) the histories are c07's: [shist] carries the data of C07BytesHistory.lopdf_history (SBase fmt d =
+   Document::save; SUpd sh s = IncrementalDocument::save of s, where s was made from the bytes of sh and from
+   the document, xref_start and cross-reference type the LOADER MODEL returned for them); [sh_ok] has exactly
+   the premises of lopdf_history's constructors. *)
+Theorem C03_history_same :
+  (forall sh, sh_ok sh -> C07BytesHistory.lopdf_history (sh_bytes sh) (sh_start sh) (sh_fmt sh) (sh_objs sh)) /\
+  (forall F xs fmt objs, C07BytesHistory.lopdf_history F xs fmt objs ->
+     exists sh, sh_ok sh /\ sh_bytes sh = F /\ sh_start sh = xs /\ sh_fmt sh = fmt /\ sh_objs sh = objs).
+Proof. split; [exact sh_ok_history | exact history_sh]. Qed.
+
+(* (5.3) the shape of every update is DERIVED from the model, not assumed: the bytes are the layout [h_bytes],
+   startxref is the offset of the newest section, and the domain of (5.1) holds -- Prev = the previous startxref
+   comes from c07's domain of an update (established by create_from + any edits, see (5.6)); "max_id not below
+   any number listed before" comes from the loader model: new_from_prev copies the max_id the loader returned,
+   which is the largest key of the merged table, and that table holds every number any older section lists. *)
+Theorem C03_history_shape :
+  forall sh, sh_ok sh -> sh_strict sh ->
+    h_bytes (sh_hist sh) = sh_bytes sh /\ h_start (sh_hist sh) = sh_start sh /\ h_dom (sh_hist sh).
+Proof.
+  intros sh H1 H2. destruct (sh_layout sh H1 H2) as [A [B [C _]]]. exact (conj A (conj B C)).
+Qed.
+
+(* (5.4) MAIN, histories: for every history of c07's kind whose FIRST document has a version "d.d" and a
+   binary mark of at least 4 bytes and whose later header lines have no EOL byte in the version ([sh_strict];
+   new_from_prev always writes "1.4"), every file of the history is accepted by the strict reader, which
+   returns the explicit [sdoc_of_history sh]. *)
+Theorem C03_strict_history :
+  forall sh, sh_ok sh -> sh_strict sh -> strict_load (sh_bytes sh) = SOk (sdoc_of_history sh).
+Proof. exact strict_load_history. Qed.
+
+(* the same, starting from c07's inductive predicate *)
+Theorem C03_strict_lopdf_history :
+  forall F xs fmt objs, C07BytesHistory.lopdf_history F xs fmt objs ->
+    exists sh, sh_bytes sh = F /\ sh_start sh = xs /\ sh_fmt sh = fmt /\ sh_objs sh = objs /\ sh_ok sh /\
+               (sh_strict sh -> strict_load F = SOk (sdoc_of_history sh)).
+Proof. exact strict_load_lopdf_history. Qed.
+
+(* (5.5) field by field: version of the FIRST header, 1 + number of updates revisions, startxref = the value the
+   writer returned, Prev of the recovered trailer = the previous startxref, the previous file is a verbatim
+   prefix, the counted spans form a chain 0 .. |file| *)
+Theorem C03_strict_history_fields :
+  forall sh, sh_ok sh -> sh_strict sh ->
+    exists r, strict_load (sh_bytes sh) = SOk r /\
+      s_version r = d_version (sh_first sh) /\
+      s_revisions r = sh_updates sh + 1 /\
+      s_stream r = is_stream (sh_fmt sh) /\
+      s_startxref r = sh_start sh /\
+      s_objects r = omerge_list (h_list h_merge_item (sh_hist sh)) [] [] /\
+      (match sh with
+       | SBase _ _ => dict_get (s_trailer r) K_Prev = None
+       | SUpd sh' s =>
+         dict_get (s_trailer r) K_Prev = Some (OInt (Z.of_N (sh_start sh'))) /\
+         firstn (length (sh_bytes sh')) (sh_bytes sh) = sh_bytes sh'
+       end) /\
+      chain 0 (effective (0, 0) (s_spans r)) (lenN (sh_bytes sh)).
+Proof. exact strict_load_history_fields. Qed.
+
+(* (5.6) the induction step through the MODELLED API: from any history and what the loader returned for its
+   newest file, create_from + any sequence of modelled edits (set_object, add_object,
+   opt_clone_object_to_new_document, get_or_create_resources, add_xobject) + IncrementalDocument::save succeeds
+   and gives a history again, also for the strict reader: Prev, the version "1.4", the binary mark and max_id
+   need no hypothesis.  What remains are the hypotheses about the NEW OBJECTS: in the writer's domain, outside
+   C01's known class, identifiers as in c07's theorem, file below 4 GiB. *)
+Theorem C03_history_update_step :
+  forall sh pd edits,
+    sh_ok sh ->
+    Loader.load (sh_bytes sh) = Loader.LOk pd (xtype_of (sh_fmt sh)) ->
+    let s := fold_left IncrementalProofs.apply_edit edits
+               (create_from (sh_bytes sh) {| xd_doc := pd; xd_start := sh_start sh; xd_type := sh_fmt sh |}) in
+    let nd := xd_doc (i_new s) in
+    rev_dom nd -> known_deep nd = false ->
+    blen (io_bytes (inc_save s)) < u32_mod ->
+    Forall (fun io : oid * obj => In (fst io) (map fst (d_objects pd)) \/ ~ In (fst (fst io)) (obj_numbers (d_objects pd))) (d_objects nd) ->
+    io_status (inc_save s) = IncOk /\ sh_ok (SUpd sh s) /\ (sh_strict sh -> sh_strict (SUpd sh s)).
+Proof. exact history_update_step. Qed.
+
+(* (5.7) every byte of every file of a history is accounted for: the counted spans are consecutive from 0 to
+   |file|, cover every position, do not overlap; the listed spans are, oldest revision first, for every revision
+   filler (header lines) / one span per object / cross-reference section / startxref marker, consecutive from the
+   end of the previous file [g_a] to the end of this revision [g_q] ([block_once]), + the repetition of a
+   cross-reference stream's span + one empty span at the end; each revision starts where the previous ends. *)
+Theorem C03_all_bytes_accounted_history :
+  forall sh, sh_ok sh -> sh_strict sh ->
+    let file := sh_bytes sh in
+    let spans := effective (0, 0) (s_spans (sdoc_of_history sh)) in
+    chain 0 spans (lenN file) /\
+    (forall p, p < lenN file -> exists a b, In (a, b) spans /\ a <= p < b) /\
+    (forall i j a b a' b', (i < j)%nat -> nth_error spans i = Some (a, b) -> nth_error spans j = Some (a', b') -> b <= a') /\
+    s_spans (sdoc_of_history sh) = tiling (h_geos (sh_hist sh)) ++ [(lenN file, lenN file)] /\
+    Forall (fun g => chain (g_a g) (block_once g) (g_q g)) (h_geos (sh_hist sh)) /\
+    geos_ok (h_geos (sh_hist sh)) /\ g_below (h_geos (sh_hist sh)) = lenN file.
+Proof. exact all_bytes_accounted_history. Qed.
+
+(* (5.8) non-vacuity: c07's example document saved, then updated three times through the modelled API (every
+   hypothesis discharged); 4 revisions; object 1 from update 1, object 2 from update 3, objects 3 and 4 from
+   update 2; the executable reader run on the model's bytes gives the same record *)
+Theorem C03_history_example :
+  sh_ok ex_h3 /\ sh_strict ex_h3 /\
+  strict_load (sh_bytes ex_h3) = SOk (sdoc_of_history ex_h3) /\
+  s_revisions (sdoc_of_history ex_h3) = 4 /\
+  s_objects (sdoc_of_history ex_h3) =
+    [((1, 0), C07BytesExample.ex_cat2); ((2, 0), OInt 9); ((3, 0), OStr (bs "newer") false); ((4, 0), ORef 1 0)] /\
+  map r_x (s_revs (sdoc_of_history ex_h3)) =
+    [io_start (inc_save ex_s3); io_start (inc_save C07BytesExample.ex_s2); io_start (inc_save C07BytesExample.ex_s);
+     blen (body_of C07BytesExample.ex_d)].
+Proof. exact history_example. Qed.
+
 Print Assumptions C03_accept_sound.
 Print Assumptions C03_chain_covers.
 Print Assumptions C03_chain_disjoint.
@@ -395,3 +525,12 @@ Print Assumptions C03_strict_incremental_fields.
 Print Assumptions C03_incremental_domain.
 Print Assumptions C03_strict_incremental_core.
 Print Assumptions C03_incremental_example.
+Print Assumptions C03_strict_chain.
+Print Assumptions C03_history_same.
+Print Assumptions C03_history_shape.
+Print Assumptions C03_strict_history.
+Print Assumptions C03_strict_lopdf_history.
+Print Assumptions C03_strict_history_fields.
+Print Assumptions C03_history_update_step.
+Print Assumptions C03_all_bytes_accounted_history.
+Print Assumptions C03_history_example.
